@@ -62,9 +62,10 @@ RULE = (
     'zero, every client holds examples of 1-3 "home" domains and one domain '
     'may be used by nobody, so rounds that starve a domain are the norm. '
     'apfl: coefficient k/8, client lr in {2,1,1/4} (sgd/momentum/adam), '
-    'rng-dependent loss optional. hypcluster: 2-4 clusters with distinct or '
+    'rng-dependent loss optional, after a third of the rounds 1-2 pool clients '
+    '(trained or not) are evaluated through the packaged APFL evaluation. hypcluster: 2-4 clusters with distinct or '
     'duplicated (exact tie) initial params, server optimizer with state '
-    '(momentum/adam) or sgd. mimelite: clip norm in {2^-10,2^-3,1/4,2^10}, '
+    '(momentum/adam) or sgd. mimelite: clip norm in {2^-10,2^-3,1/4,2^10,0}, '
     'server lr in {1,1/2,2}, base sgd/momentum/adam. ignore_grads_haiku: 1-3 '
     'haiku modules with leaves from {w,b,s}, ignore-list a subset of the '
     '(module, name) pairs, 1-4 successive apply() calls with carried state, '
@@ -409,6 +410,38 @@ def _build_apfl(key):
       batch_hparams(hp['batch']), client_coefficient=hp['coef'] / 8.0)
 
 
+class SquaredError(fedjax.metrics.Metric):
+  """User-defined regression metric for the APFL evaluation entry point."""
+
+  def zero(self):
+    return fedjax.metrics.MeanStat.new(0., 0.)
+
+  def evaluate_example(self, example, prediction):
+    return fedjax.metrics.MeanStat.new((prediction - example['y']) ** 2, 1.)
+
+
+@functools.lru_cache(maxsize=None)
+def _apfl_eval_fn(buckets):
+  model = fedjax.Model(
+      init=lambda rng: params_of([0, 0, 0]),
+      apply_for_train=lambda params, batch, rng: batch['x'] @ params['w'] + 0.5 * params['b'],
+      apply_for_eval=lambda params, batch: batch['x'] @ params['w'] + 0.5 * params['b'],
+      train_loss=lambda batch, pred: (pred - batch['y']) ** 2,
+      eval_metrics={'mse': SquaredError()})
+  return apfl_lib.eval_adaptive_personalized_federated_learning(
+      model, fedjax.PaddedBatchHParams(batch_size=2, num_batch_size_buckets=buckets))
+
+
+def apfl_state_bits(state):
+  leaves, treedef = jax.tree_util.tree_flatten((state.params, state.opt_state))
+  table = {c: jax.tree_util.tree_flatten((cs.params, cs.interpolation_coefficients))
+           for c, cs in state.client_states.items()}
+  snap = lambda ls: [(str(np.asarray(l).dtype), np.asarray(l).shape, np.asarray(l).tobytes())
+                     for l in ls]
+  return (snap(leaves), str(treedef),
+          {c: (snap(ls), str(td)) for c, (ls, td) in sorted(table.items())})
+
+
 def run_apfl(case):
   hp = case['hp']
   alg = _build_apfl(canonical(hp))
@@ -447,6 +480,30 @@ def run_apfl(case):
             extra.add('coefficient_clipped_to_1')
         if np.any(a != hp['coef'] / 8.0):
           extra.add('coefficient_moved')
+    # Evaluating clients between rounds (the packaged APFL evaluation entry
+    # point) is not participation: the server state -- parameters and the
+    # per-client table -- must be exactly what it was.
+    evals = case.get('evals', [])
+    who = evals[r] if r < len(evals) else []
+    if who:
+      before = apfl_state_bits(state)
+      eval_fn = _apfl_eval_fn(1 + r % 2)
+      results = list(eval_fn(state, [(cid(i), datasets[i]) for i in who]))
+      require([c for c, _ in results] == [cid(i) for i in who] or
+              sorted(c for c, _ in results) == sorted(cid(i) for i in who),
+              'apfl:evaluation_result_ids', f'after round {r}: {[c for c, _ in results]} for {who}')
+      for c, m in results:
+        require(set(m) == {'mse'} and bool(np.isfinite(np.asarray(m['mse'].result(), np.float64))),
+                'apfl:evaluation_result', f'after round {r}: client {c}: {m!r}')
+      stored = set(state.client_states)
+      require(stored <= participated, 'apfl:client_state_for_non_participant',
+              f'after evaluating {sorted(cid(i) for i in who)} following round {r}: stored '
+              f'{sorted(stored)} participated {sorted(participated)}')
+      require(apfl_state_bits(state) == before, 'apfl:evaluation_changed_server_state',
+              f'after evaluating {sorted(cid(i) for i in who)} following round {r}')
+      extra.add('evaluated_between_rounds')
+      if any(cid(i) not in participated for i in who):
+        extra.add('evaluated_a_client_that_never_trained')
   return sorted(extra)
 
 
@@ -473,7 +530,15 @@ def apfl_labels(case):
   used = set(i for rnd in case['rounds'] for i, _ in rnd)
   if len(used) < len(case['pool']):
     ls.append('pool_client_never_participates')
-  return ls + returning_labels(case)
+  seen = set()
+  for r, rnd in enumerate(case['rounds']):
+    seen.update(i for i, _ in rnd)
+    who = case.get('evals', [])[r:r + 1]
+    if who and who[0]:
+      ls.append('evaluation_between_rounds')
+      if any(i not in seen for i in who[0]) and r + 1 < len(case['rounds']):
+        ls.append('evaluates_untrained_client_then_trains_on')
+  return sorted(set(ls)) + returning_labels(case)
 
 
 def apfl_nontrivial(case, ls):
@@ -603,6 +668,7 @@ MIME_OPT = [{'name': 'sgd', 'lr_exp': 0, 'momentum': 0},
             {'name': 'momentum', 'lr_exp': 1, 'momentum': 4},
             {'name': 'adam', 'lr_exp': 2, 'momentum': 0}]
 MIME_CLIP_EXP = [-10, -3, -2, 10]
+MIME_CLIP = [2.0 ** e for e in MIME_CLIP_EXP] + [0.0]   # index 4: bound 0, all clipped away
 MIME_SERVER_LR = [1.0, 0.5, 2.0]
 
 
@@ -613,7 +679,7 @@ def _build_mime(key):
       per_example_loss, opt_of(MIME_OPT[hp['opt']]), batch_hparams(hp['batch']),
       fedjax.PaddedBatchHParams(batch_size=hp['gbs'], num_batch_size_buckets=hp['buckets']),
       server_learning_rate=MIME_SERVER_LR[hp['slr']],
-      client_delta_clip_norm=2.0 ** MIME_CLIP_EXP[hp['clip']])
+      client_delta_clip_norm=MIME_CLIP[hp['clip']])
 
 
 def tree_norm64(t):
@@ -627,7 +693,7 @@ def run_mime(case):
   datasets = [make_dataset(c, d) for c in case['pool']]
   arrays = [client_arrays(c, d) for c in case['pool']]
   sizes = sizes_of(case)
-  bound = 2.0 ** MIME_CLIP_EXP[hp['clip']]
+  bound = MIME_CLIP[hp['clip']]
   slr = MIME_SERVER_LR[hp['slr']]
   spec = MIME_OPT[hp['opt']]
   ropt = c01.ref_optimizer(spec)
@@ -698,7 +764,7 @@ def run_mime(case):
 
 def mime_labels(case):
   hp = case['hp']
-  ls = ['clip:2^%d' % MIME_CLIP_EXP[hp['clip']], 'base:' + MIME_OPT[hp['opt']]['name'],
+  ls = ['clip:%g' % MIME_CLIP[hp['clip']], 'base:' + MIME_OPT[hp['opt']]['name'],
         'server_lr:%g' % MIME_SERVER_LR[hp['slr']], 'rounds:%d' % len(case['rounds'])]
   if any(len(rnd) >= 2 for rnd in case['rounds']):
     ls.append('multi_client_round')
@@ -877,14 +943,14 @@ def _hyp_preset(i):
 
 
 def _mime_preset(i):
-  return {'opt': i % 4, 'clip': [1, 0, 2, 1, 2, 3][i % 6], 'slr': [0, 1, 2][i % 3],
+  return {'opt': i % 4, 'clip': [1, 0, 2, 1, 2, 3, 4][i % 7], 'slr': [0, 1, 2][i % 3],
           'gbs': [2, 4][(i // 2) % 2], 'buckets': [1, 2][i % 2], 'batch': preset_batch(i + 3)}
 
 
 AG_PRESETS = [_ag_preset(i) for i in range(9)]
 APFL_PRESETS = [_apfl_preset(i) for i in range(7)]
 HYP_PRESETS = [_hyp_preset(i) for i in range(3)]
-MIME_PRESETS = [_mime_preset(i) for i in range(6)]
+MIME_PRESETS = [_mime_preset(i) for i in range(7)]
 
 
 def draw_hp(draw, tier, presets, free):
@@ -931,6 +997,12 @@ def _apfl_free(draw):
 def apfl_cases(draw, tier):
   case = {'alg': 'apfl', 'hp': draw_hp(draw, tier, APFL_PRESETS, _apfl_free)}
   case.update(draw_common(draw, tier))
+  # clients evaluated (packaged APFL evaluation) after each round: mostly none
+  npool = len(case['pool'])
+  case['evals'] = [
+      draw(st.one_of(st.just([]), st.just([]),
+                     st.lists(st.integers(0, npool - 1), min_size=1, max_size=2, unique=True)))
+      for _ in case['rounds']]
   return case
 
 
@@ -959,7 +1031,7 @@ def hyp_cases(draw, tier):
 
 def _mime_free(draw):
   return {'opt': draw(st.integers(0, len(MIME_OPT) - 1)),
-          'clip': draw(st.sampled_from([0, 1, 1, 2, 2, 3])),
+          'clip': draw(st.sampled_from([0, 1, 1, 2, 2, 3, 4])),
           'slr': draw(st.sampled_from([0, 0, 1, 2])),
           'gbs': draw(st.sampled_from([2, 4])), 'buckets': draw(st.sampled_from([1, 2])),
           'batch': draw_batch(draw)}
